@@ -2011,4 +2011,141 @@ example : (parseEvents C01_modesEnv [] ([.metadata (C01_txt "[duplicate]" 3) (C0
     ["redundant-ref"] := by rfl
 
 
+/-- **The round trip for documents with mode switches, from the printed characters to the recipe.**  `doc` as in
+    `C01_recipe_doc_refs` (steps, section lines, `>>` lines, text paragraphs; the same hypotheses on the syntax
+    layers), but a `>>` line may be a MODE SWITCH: under MODES a line whose key is `[mode]` / `[define]` with the
+    value `all|default`, `components|ingredients`, `steps`, `text`, or whose key is `[duplicate]` with the value
+    `new|default`, `reference|ref` (`metaLineY`; key and value as written, any spacing around them).  `DocItem.y`
+    describes the document for the analysis.  Hypotheses on the analysis side, both on the ABSTRACT document:
+    * `docSideOK` (threaded with the define mode): scaling locks as in `C01_recipe_doc_refs`; the extension
+      conditions on text runs only where a text becomes a step item; every `>>` line is an accepted switch or a
+      plain entry (so `[mode]: bogus` and `[other]: x` are excluded — the code reports them) — computable, see
+      `C01_mode_side_conditions_check`;
+    * `yOKB` (threaded with both modes and the tables): the computable conditions of `C01_analysis_modes`.
+    Then `CooklangParser::parse` returns a recipe, no panic; sections, the three tables and the `>>` map are
+    `yRun …` of the abstract document (`C01_step_by_mode`, `C01_duplicate_reference_table`); the only diagnostic is
+    the `>>` deprecation notice with one label per `>>` line that is an ENTRY (`DocItem.isEntry`: the switches are
+    not counted; with switches only there is no diagnostic at all).  Outside: a component inside a text-mode
+    block (reported by the code: `C01_text_mode_block`), ADVANCED_UNITS with references, front matter. -/
+theorem C01_recipe_doc_modes {α : Type} [Arith α] (env : Env) (pre : List Tok) (doc : List (DocItem × List Tok))
+    (hpre : blankLinesOK pre = true) (hok : ∀ d ∈ doc, d.1.ok env.cs env.ext = true)
+    (hside : docSideOK α env .all (doc.map (·.1)))
+    (hrefs : yOKB (α := α) env .all .new {} [] ⟨none, []⟩ 1 (doc.map (fun d => d.1.y env)) = true)
+    (hseps : sepsOK (doc.map (·.2)) = true) (hw : WellSpelled env.cs (pre ++ docSpec doc))
+    (hfm : parseFrontmatter env.cs (render (pre ++ docSpec doc)) = none) :
+    ∃ (c : Col α) (spans : List Span),
+      parseRecipe env (render (pre ++ docSpec doc)) = ⟨some c, c.diags, none⟩ ∧
+      c.sections = (yRun (α := α) env .all .new {} [] ⟨none, []⟩ 1 [] (doc.map (fun d => d.1.y env))).secs ∧
+      c.ingredients = (yRun (α := α) env .all .new {} [] ⟨none, []⟩ 1 [] (doc.map (fun d => d.1.y env))).T.ing ∧
+      c.cookware = (yRun (α := α) env .all .new {} [] ⟨none, []⟩ 1 [] (doc.map (fun d => d.1.y env))).T.cw ∧
+      c.timers = (yRun (α := α) env .all .new {} [] ⟨none, []⟩ 1 [] (doc.map (fun d => d.1.y env))).T.tm ∧
+      c.metaMap = (yRun (α := α) env .all .new {} [] ⟨none, []⟩ 1 [] (doc.map (fun d => d.1.y env))).metaMap ∧
+      c.diags = deprecation spans ∧
+      spans.length = ((doc.map (·.1)).filter (DocItem.isEntry α env)).length ∧
+      c.inlineQ = #[] ∧ c.frontMatter = none :=
+  rtdm_parseRecipe_doc env pre doc hpre hok hside hrefs hseps hw hfm
+
+/-- the table-independent side conditions are decidable up to the extension conditions: the computable check
+    `docSideB` (scaling locks; every `>>` line an accepted switch or a plain entry, `plainB`) together with the
+    extension conditions `SegX.extOKM` implies `docSideOK` -/
+theorem C01_mode_side_conditions_check {α : Type} [Arith α] (env : Env)
+    (hx : ∀ (dm : DefineMode) (sg : SegX), sg.extOKM α env dm) (items : List DocItem) (dm : DefineMode)
+    (h : docSideB α env dm items = true) : docSideOK α env dm items :=
+  rtdm_docSideOK_intro env hx items dm h
+
+/-- with INLINE_QUANTITIES and ADVANCED_UNITS off the extension conditions hold for every segment -/
+theorem C01_ext_conditions_vacuous {α : Type} [Arith α] (env : Env)
+    (h1 : env.ext.has Gen.EXT_INLINE_QUANTITIES = false) (h2 : env.ext.has Gen.EXT_ADVANCED_UNITS = false)
+    (dm : DefineMode) (sg : SegX) : sg.extOKM α env dm :=
+  rtdm_extOKM_off env h1 h2 dm sg
+
+/-- a plain `>>` line (`DocItem.plain`, the hypothesis of `C01_recipe_doc` / `C01_recipe_doc_refs`) is an entry
+    for `metaLineY`: documents without switch lines are the special case -/
+theorem C01_plain_line_is_entry {α : Type} [Arith α] (env : Env) (k v : List Tok) (p : MPad)
+    (hp : (DocItem.metaLine k v p).plain env) : metaLineY (α := α) env k v = .entry (leafText k) (leafText v) :=
+  rtdm_metaLineY_plain env k v p hp
+
+/-! example, under MODES + MODIFIERS: every switch once.
+    `>> [duplicate]: ref` / `Mix @flour{200%g} in #bowl{}.` / `Add @flour{50%g} to #bowl{}.` / `>> [mode]: text` /
+    `Rest well.` / `>> [duplicate]: default` / `>> [define]: ingredients` / `@salt{}` / `>> [mode]: steps` /
+    `Season with @salt{} and @flour{}.` / `>> [mode]: all` / `>> source: me`.
+    Result: ONE section with step 1, step 2 (its `flour` and `bowl` are implicit references), the paragraph
+    `Rest well.`, step 3 (both components are references: steps mode); `salt` is in the table with
+    `defined_in_step = false`; the map has the one entry `source`; the deprecation notice has one label. -/
+def C01_allModesEnv : Env :=
+  ⟨toyCharSpec, ⟨Gen.EXT_MODES ||| Gen.EXT_COMPONENT_MODIFIERS⟩, fun _ => none, fun _ _ => .ok, fun c => [c], 0⟩
+def C01_modeKey (s : String) : List Tok := [tk .punct ['['], tk .word s.toList, tk .word [']']]
+def C01_modeLine (k v : String) : DocItem := .metaLine (C01_modeKey k) [tk .word v.toList] { a := [C01_sp], c := [C01_sp] }
+def C01_exModesDoc : List (DocItem × List Tok) :=
+  [(C01_modeLine "duplicate" "ref", [C01_nl, C01_nl]),
+   (.step [.text [tk .word "Mix".toList, C01_sp],
+           .ingredient { name := [tk .word "flour".toList], qty := some (C01_grams "200") } {},
+           .text [C01_sp, tk .word "in".toList, C01_sp],
+           .cookware { name := [tk .word "bowl".toList] } {},
+           .text [tk .dot ['.']]], [C01_nl, C01_nl]),
+   (.step [.text [tk .word "Add".toList, C01_sp],
+           .ingredient { name := [tk .word "flour".toList], qty := some (C01_grams "50") } {},
+           .text [C01_sp, tk .word "to".toList, C01_sp],
+           .cookware { name := [tk .word "bowl".toList] } {},
+           .text [tk .dot ['.']]], [C01_nl, C01_nl]),
+   (C01_modeLine "mode" "text", [C01_nl, C01_nl]),
+   (.step [.text [tk .word "Rest".toList, C01_sp, tk .word "well".toList, tk .dot ['.']]], [C01_nl, C01_nl]),
+   (C01_modeLine "duplicate" "default", [C01_nl, C01_nl]),
+   (C01_modeLine "define" "ingredients", [C01_nl, C01_nl]),
+   (.step [.ingredient { name := [tk .word "salt".toList] } {}], [C01_nl, C01_nl]),
+   (C01_modeLine "mode" "steps", [C01_nl, C01_nl]),
+   (.step [.text [tk .word "Season".toList, C01_sp, tk .word "with".toList, C01_sp],
+           .ingredient { name := [tk .word "salt".toList] } {},
+           .text [C01_sp, tk .word "and".toList, C01_sp],
+           .ingredient { name := [tk .word "flour".toList] } {},
+           .text [tk .dot ['.']]], [C01_nl, C01_nl]),
+   (C01_modeLine "mode" "all", [C01_nl, C01_nl]),
+   (.metaLine [tk .word "source".toList] [tk .word "me".toList] { a := [C01_sp], c := [C01_sp] }, [C01_nl])]
+
+set_option maxRecDepth 8000 in
+example : String.ofList (render (docSpec C01_exModesDoc)) =
+    ">> [duplicate]: ref\n\nMix @flour{200%g} in #bowl{}.\n\nAdd @flour{50%g} to #bowl{}.\n\n>> [mode]: text\n\nRest well.\n\n>> [duplicate]: default\n\n>> [define]: ingredients\n\n@salt{}\n\n>> [mode]: steps\n\nSeason with @salt{} and @flour{}.\n\n>> [mode]: all\n\n>> source: me\n" := by
+  decide
+example : (∀ d ∈ C01_exModesDoc, d.1.ok C01_allModesEnv.cs C01_allModesEnv.ext = true) ∧
+    sepsOK (C01_exModesDoc.map (·.2)) = true := by decide
+set_option maxRecDepth 8000 in
+example : WellSpelled toyCharSpec (docSpec C01_exModesDoc) := by decide
+set_option maxRecDepth 8000 in
+example : (parseFrontmatter toyCharSpec (render (docSpec C01_exModesDoc))).isNone = true := by decide
+example : docSideOK Rat C01_allModesEnv .all (C01_exModesDoc.map (·.1)) :=
+  C01_mode_side_conditions_check _ (C01_ext_conditions_vacuous _ (by decide) (by decide)) _ _ (by decide)
+example : yOKB (α := Rat) C01_allModesEnv .all .new {} [] ⟨none, []⟩ 1
+    (C01_exModesDoc.map (fun d => d.1.y C01_allModesEnv)) = true := by decide
+example : (yRun (α := Rat) C01_allModesEnv .all .new {} [] ⟨none, []⟩ 1 []
+      (C01_exModesDoc.map (fun d => d.1.y C01_allModesEnv))).secs =
+    [⟨none, [.step ⟨[.text "Mix ".toList, .ingredient 0, .text " in ".toList, .cookware 0, .text ".".toList], 1⟩,
+             .step ⟨[.text "Add ".toList, .ingredient 1, .text " to ".toList, .cookware 1, .text ".".toList], 2⟩,
+             .text "Rest well.".toList,
+             .step ⟨[.text "Season with ".toList, .ingredient 3, .text " and ".toList, .ingredient 4,
+                     .text ".".toList], 3⟩]⟩] := by decide
+example : (yRun (α := Rat) C01_allModesEnv .all .new {} [] ⟨none, []⟩ 1 []
+      (C01_exModesDoc.map (fun d => d.1.y C01_allModesEnv))).T.ing.toList.map
+      (fun i => (i.name, i.relation, i.modifiers)) =
+    [("flour".toList, ⟨.definition [1, 4] true, none⟩, ⟨0⟩),
+     ("flour".toList, ⟨.reference 0, some .ingredient⟩, ⟨Modifiers.REF⟩),
+     ("salt".toList, ⟨.definition [3] false, none⟩, ⟨0⟩),
+     ("salt".toList, ⟨.reference 2, some .ingredient⟩, ⟨Modifiers.REF⟩),
+     ("flour".toList, ⟨.reference 0, some .ingredient⟩, ⟨Modifiers.REF⟩)] := by decide
+example : (yRun (α := Rat) C01_allModesEnv .all .new {} [] ⟨none, []⟩ 1 []
+      (C01_exModesDoc.map (fun d => d.1.y C01_allModesEnv))).T.cw.toList.map (fun i => (i.name, i.relation)) =
+    [("bowl".toList, .definition [1] true), ("bowl".toList, .reference 0)] := by decide
+example : (yRun (α := Rat) C01_allModesEnv .all .new {} [] ⟨none, []⟩ 1 []
+      (C01_exModesDoc.map (fun d => d.1.y C01_allModesEnv))).metaMap = [("source".toList, "me".toList)] ∧
+    ((C01_exModesDoc.map (·.1)).filter (DocItem.isEntry Rat C01_allModesEnv)).length = 1 := by decide
+/-- the conditions are needed: an unknown value, an unknown `[…]` key fail the side check; a component in a
+    text-mode block, a `&` in duplicate mode `reference` fail the component check -/
+example : docSideB Rat C01_allModesEnv .all [C01_modeLine "mode" "bogus"] = false ∧
+    docSideB Rat C01_allModesEnv .all [C01_modeLine "other" "all"] = false := by decide
+example : yOKB (α := Rat) C01_allModesEnv .all .new {} [] ⟨none, []⟩ 1
+    [.define .text, .step [.ingr none (absIngr { name := [tk .word "salt".toList] })]] = false ∧
+    yOKB (α := Rat) C01_allModesEnv .all .new {} [] ⟨none, []⟩ 1
+    [.duplicate .reference, .step [.ingr none (absIngr { name := [tk .word "salt".toList] })],
+     .step [.ingr none (absIngr { mods := [.and], name := [tk .word "salt".toList] })]] = false := by decide
+
+
 end Cook
